@@ -15,7 +15,7 @@ FUNCTIONS_ENCODED = ['pgpy.packet.packets.PubKeyV4.fingerprint', 'pgpy.packet.fi
                      'pgpy.packet.packets.PrivKeyV4.pubkey', 'pgpy.packet.packets.PubKeyV4.parse', 'pgpy.packet.packets.PrivKeyV4.parse',
                      'pgpy.types.Fingerprint.__new__ / keyid / shortid / __eq__ / __hash__']
 STUBS = ['SHA-1 (hashlib in pgpy.packet.packets) -> recorder: the harness compares the octets FED to the hash with 99 || len2 || exported public body']
-OUTSIDE = ['the creation-time clause (times whose local rendering differs from UTC): calendar.timegm(datetime.timetuple()) is two C calls - not decided',
+OUTSIDE = ['creation times as symbolic values: the time codec is two C calls (calendar.timegm(datetime.timetuple())); O18.1-tz covers 4 zones x 6 boundary instants only',
            'SHA-1 itself', 'key material beyond the stated bounds (integers below 2^32, EC point boundary octets)',
            'ids written by sign / encrypt (issuer, issuer fingerprint, recipient): covered for signatures in C02 (sp_issuer_fpr) and C20 (one-pass issuer); PKESK recipient id not covered here']
 ASSUMPTIONS = ['RFC 4880 12.2: fingerprint = SHA-1(0x99 || two-octet length || public-key packet body starting at the version octet); key id = low 64 bits']
@@ -153,6 +153,43 @@ def fpr_dsa_elg(dsa: bool, b0: int, b1: int, v0: int, v1: int, v2: int, v3: int)
     return fed == expect(body_of(pkt))
 
 
+from datetime import datetime, timezone, timedelta
+ZONES = (timezone.utc, timezone(timedelta(hours=2)), timezone(timedelta(hours=-5, minutes=-30)), timezone(timedelta(hours=14)))
+STAMPS = (0, 1, 1_600_000_000, 2 ** 31 - 1, 2 ** 31, 2 ** 32 - 1)
+
+
+@ob('O18.1-tz', 'creation times given as zone-aware datetimes whose local rendering differs from UTC: the hashed octets are still 99 || len2 || exported body '
+                '(fingerprint and export agree on the four time octets), and those octets are the Unix time', 'zone by symbolic index from {UTC, +02:00, -05:30, +14:00} x instant from 6 boundary values; '
+                'RSA material with 2 symbolic octets; key packet built through the API (created=...)', cond_timeout={'q': 280, 't': 600}, flags=('symmpi',))
+def fpr_timezone(zi: int, si: int, n0: int, e0: int) -> bool:
+    """
+    pre: 0 <= zi < 4
+    pre: 0 <= si < 6
+    pre: 128 <= n0 < 256 and 1 <= e0 < 256
+    post: _
+    """
+    from pgpy.packet.packets import PubKeyV4
+    from pgpy.packet.types import MPI
+    from pgpy.constants import PubKeyAlgorithm
+    zone, stamp = ZONES[0], STAMPS[0]
+    for k in range(4):
+        if zi == k:
+            zone = ZONES[k]
+    for k in range(6):
+        if si == k:
+            stamp = STAMPS[k]
+    pk = PubKeyV4()
+    pk.pkalg = PubKeyAlgorithm.RSAEncryptOrSign
+    pk.keymaterial.n = MPI(n0 * 2 ** 24 + 0x070903)
+    pk.keymaterial.e = MPI(e0)
+    pk.created = datetime.fromtimestamp(stamp, zone)
+    pk.update_hlen()
+    fed, fp = fed_for(pk)
+    body = body_of(pk)
+    want_time = bytes([(stamp // 16777216) % 256, (stamp // 65536) % 256, (stamp // 256) % 256, stamp % 256])
+    return fed == expect(body) and body[1:5] == want_time
+
+
 HEX = '0123456789ABCDEF0123456789abcdef01234567'
 
 
@@ -179,6 +216,6 @@ def fingerprint_forms(p0: int, p1: int, p2: int, lower: bool) -> bool:
             (g == base[-16:]) and (g == base[-8:]) and not (g == base[-15:] + '0'))
 
 
-SANITY = ['fpr_rsa(False, False, 32, 0x80, 1, 17, 1, 1)', 'fpr_rsa(False, True, 25, 0, 1, 1, 1, 0)', 'fpr_rsa(True, False, 32, 0x80, 1, 17, 1, 1)', 'fpr_rsa(True, True, 31, 1, 1, 16, 0, 9)',
+SANITY = ['fpr_timezone(%d, %d, 0x81, 3)' % (z, t) for z in range(4) for t in range(6)] + ['fpr_rsa(False, False, 32, 0x80, 1, 17, 1, 1)', 'fpr_rsa(False, True, 25, 0, 1, 1, 1, 0)', 'fpr_rsa(True, False, 32, 0x80, 1, 17, 1, 1)', 'fpr_rsa(True, True, 31, 1, 1, 16, 0, 9)',
           'fpr_ec(0, False, 1, 2, 0, 0)', 'fpr_ec(1, False, 0, 3, 0, 0)', 'fpr_ec(2, False, 2, 2, 1, 2)', 'fpr_ec(0, True, 1, 1, 0, 0)', 'fpr_ec(2, True, 3, 0, 2, 1)', 'fpr_ec(1, True, 1, 1, 0, 0)',
           'fpr_dsa_elg(True, 8, 16, 0x80, 0x80, 1, 0x81)', 'fpr_dsa_elg(False, 1, 9, 0, 0, 0, 0)', 'fingerprint_forms(0, 3, 5, True)', 'fingerprint_forms(1, 2, 4, False)']
